@@ -79,7 +79,9 @@ def _changes(wt):
             for c in wt.iter_changes(bt):
                 if c.path[0] == "" or c.path[1] == "":
                     continue  # the tree root (first commit) - always goes along
-                out[c.file_id] = (c.path, c.changed_content, c.versioned, c.name, c.kind, c.executable)
+                # identified by id and parent id, not by path: a committed rename of an ancestor directory
+                # legitimately changes the old *path* of a still pending change below it
+                out[c.file_id] = (c.parent_id, c.changed_content, c.versioned, c.name, c.kind, c.executable)
     return out
 
 
@@ -165,9 +167,24 @@ def _oracle(ctx, repo, new_rev, wview, bview, spec, excl, detail):
     # breezy (dirstate iter_changes) also looks at the *other* location of every selected id - the path a selected
     # rename vacated or took over; whatever sits there now may go along.  The statement does not say which way
     # that goes, so such ids may take either state.
+    def named(fid):
+        ps = [v[fid][5] for v in (wview, bview) if fid in v]
+        return spec is not None and any(_inside(s_, p_) for s_ in spec for p_ in ps)
+
+    # an unselected entry whose working-tree parent directory vanishes in this commit (missing on disk, committed as
+    # deleted) cannot keep its pending state: the statement is silent, either state is accepted
+    gone = {f for f, v in wview.items() if v[2] is None}
+    for f in ids - S:
+        if f in wview:
+            p = wview[f][0]
+            while p != b"ROOT" and p in wview:
+                if p in gone:
+                    P.add(f)
+                    break
+                p = wview[p][0]
     if spec is not None:
         other_paths = set()
-        for f in S:
+        for f in S | {x for x in ids if named(x)}:  # named by the user, even if excluded afterwards
             for v in (wview, bview):
                 if f in v:
                     other_paths.add(v[f][5])
